@@ -4,6 +4,10 @@
    Part "loop"  : pass-loop machine over the same graphs                                             -- refinement, laws
    Part "cases" : one state per graph with the allowed outcome and the predicted loop behaviour      -- dumped, replayed
    Part "num"   : numbered-variable cases (heads, plain/specific variables, one occurrence, a dependent on it)
+   Part "hist"  : construction histories: 1-3 math graders constructed one after the other (FormulaGrader, FormulaGrader
+                  with allow_inf, NumericalGrader, MatrixGrader, SumGrader; IntegralGrader as a predecessor only), each
+                  adding, overriding or removing constants; the LAST grader's samples are judged from its own class and
+                  configuration alone
 
    Graphs: symbols s1..sn in this declaration order (all labelled graphs are enumerated, so every declaration
    order of every graph shape occurs), each independent or dependent.  n <= 3: a dependent's dependencies are any
@@ -45,7 +49,39 @@ GraderCfg(cs) ==
    occ |-> << [key |-> Key(cs.oh, cs.oi), h |-> cs.oh, i |-> cs.oi] >>,
    consts |-> << [n |-> "k", v |-> 7] >>, ns |-> NS]
 
+\* ---- construction histories
+\* default constants travel as integer codes (the adapter maps pi, e, i, j, infty to the same codes)
+BaseDefaults == << [n |-> "pi", v |-> 500000314], [n |-> "e", v |-> 500000271], [n |-> "i", v |-> 500001001],
+                  [n |-> "j", v |-> 500001002] >>
+WithInfty == BaseDefaults \o << [n |-> "infty", v |-> 500009999] >>
+ClassDefaults == [FG |-> BaseDefaults, NG |-> BaseDefaults, MG |-> BaseDefaults,
+                  FGinf |-> WithInfty, SG |-> WithInfty, IG |-> WithInfty]
+Set(n, v) == [n |-> n, op |-> "set", v |-> v]
+Rem(n) == [n |-> n, op |-> "remove", v |-> 0]
+UserOps == [none |-> <<>>,
+            add |-> <<Set("kappa", 7)>>,
+            ovr_pi |-> <<Set("pi", 3)>>,
+            rm_pi |-> <<Rem("pi")>>,
+            mixed |-> <<Set("e", 2), Rem("j"), Set("kappa", 7)>>,
+            rm_infty |-> <<Rem("infty")>>,
+            ovr_infty |-> <<Set("infty", 1000), Set("i", 5)>>,
+            rm_all |-> <<Rem("pi"), Rem("e"), Rem("i"), Rem("j"), Rem("infty")>>]
+LastClasses == {"FG", "FGinf", "NG", "MG", "SG"}
+NoPred == [cls |-> "none", op |-> "none"]
+Preds1 == {NoPred} \cup {[cls |-> kc, op |-> o] : kc \in LastClasses \cup {"IG"}, o \in DOMAIN UserOps}
+Preds2 == IF MaxN <= 3 THEN {NoPred, [cls |-> "SG", op |-> "rm_all"], [cls |-> "IG", op |-> "rm_pi"]}
+          ELSE {NoPred} \cup {[cls |-> kc, op |-> o] : kc \in {"FG", "SG", "IG"}, o \in {"rm_pi", "mixed", "rm_all"}}
+HistSeeds == {[kind |-> "seed", cl |-> kc, ol |-> o] : kc \in LastClasses, o \in DOMAIN UserOps}
+HistCases(s) == {x \in [kind : {"hist"}, cl : {s.cl}, ol : {s.ol}, p1 : Preds1, p2 : Preds2] :
+                   x.p1 = NoPred => x.p2 = NoPred}
+HistoryOf(cs) == (IF cs.p2 = NoPred THEN <<>> ELSE << [cls |-> cs.p2.cls, user |-> UserOps[cs.p2.op]] >>)
+                 \o (IF cs.p1 = NoPred THEN <<>> ELSE << [cls |-> cs.p1.cls, user |-> UserOps[cs.p1.op]] >>)
+                 \o << [cls |-> cs.cl, user |-> UserOps[cs.ol]] >>
+HistNS(cs) == IF cs.cl = "NG" THEN 1 ELSE NS
+ExpandHist(cs) == [decl |-> <<>>, consts |-> RunHistory(ClassDefaults, HistoryOf(cs)).consts, ns |-> HistNS(cs)]
+
 MCExpand(cs) == IF cs.kind = "case" THEN ExpandGraph(cs)
+                ELSE IF cs.kind = "hist" THEN ExpandHist(cs)
                 ELSE IF cs.kind = "num" THEN Effective(GraderCfg(cs), FALSE)
                 ELSE [decl |-> <<>>, consts |-> <<>>, ns |-> 1]
 
@@ -68,12 +104,14 @@ NumSeeds == {[kind |-> "seed", heads |-> h, pa |-> pa, sp |-> sp, oh |-> oh]
                : h \in DOMAIN HeadSets, pa \in BOOLEAN, sp \in BOOLEAN, oh \in {"a", "ab", "b", "A"}}
 NumCases(s) == [kind : {"num"}, heads : {s.heads}, pa : {s.pa}, sp : {s.sp}, oh : {s.oh}, oi : Indices, dep : BOOLEAN]
 
-Seeds == IF Part = "num" THEN NumSeeds ELSE GraphSeeds
-CasesOf(s) == IF Part = "num" THEN NumCases(s) ELSE GraphCases(s)
+Seeds == IF Part = "num" THEN NumSeeds ELSE IF Part = "hist" THEN HistSeeds ELSE GraphSeeds
+CasesOf(s) == IF Part = "num" THEN NumCases(s) ELSE IF Part = "hist" THEN HistCases(s) ELSE GraphCases(s)
 
 \* ---- allowed outcome of a case (the dump carries it to the adapter)
 CaseOutcome(cs) ==
-  IF cs.kind = "case"
+  IF cs.kind = "hist"
+  THEN [alts |-> {OutcomeRec(ExpandHist(cs))}, order |-> <<>>, passes |-> 0, diag |-> "none", names |-> {}]
+  ELSE IF cs.kind = "case"
   THEN LET g == ExpandGraph(cs) r == LoopRun(g, 1) IN
        [alts |-> {OutcomeRec(g)}, order |-> r.order, passes |-> r.passes, diag |-> r.diag.d, names |-> r.diag.names]
   ELSE LET f == GraderCfg(cs) r == LoopRun(Effective(f, FALSE), 1) o == f.occ[1] IN
@@ -118,5 +156,10 @@ LawInstance == (IsCase /\ c.kind = "num") =>
   /\ (c.dep /\ out.inst = "no") => \A a \in out.alts : a.res = "error"
   /\ (c.dep /\ out.inst \in {"instance", "specific"}) => \A a \in out.alts : a.res = "ok" /\ a.samples[1]["d"] = 1 + a.samples[1][key]
   /\ IsDecimal(c.oi) /\ LawCanonUnique(c.oi)
+LawHistory == (IsCase /\ c.kind = "hist") =>
+  /\ LawHistoryFree(ClassDefaults, HistoryOf(c))
+  /\ WellFormedUser(UserOps[c.ol]) /\ LawConsts(ClassDefaults[c.cl], UserOps[c.ol])
+  /\ \A a \in out.alts : a.res = "ok" /\ \A j \in DOMAIN a.samples :
+        a.samples[j] = ConstFn(EffectiveConsts(ClassDefaults[c.cl], UserOps[c.ol]))
 ASSUME LawCanon == \A n \in -1200..1200 : LawCanonRoundTrip(n)
 =============================================================================
